@@ -427,6 +427,64 @@ fn api_tag<P: RcObject + std::fmt::Debug + 'static>(mk: impl Fn(u64) -> P, val_o
             fail11b("tagged-null-snapshot", "Snapshot::null().with_tag is not null".into());
         }
     }
+    // the rest of the public surface: constructors, conversions, Default, Clone, formatting of the
+    // cells (which print the stored pointer without tag and epoch bits), get_mut
+    {
+        let g = cs();
+        let c2 = AtomicRc::<P>::new(mk(c.val ^ 1));
+        let l = c2.load(SeqCst, &g);
+        if l.is_null() || l.tag() != 0 || val_of(l.as_ref().unwrap()) != c.val ^ 1 {
+            fail11b("atomic-rc-new", "AtomicRc::new does not hold the new object untagged".into());
+        }
+        if !AtomicRc::<P>::default().load(SeqCst, &g).is_null() || !AtomicWeak::<P>::default().load(SeqCst, &g).is_null() {
+            fail11b("cell-default", "a default cell is not null".into());
+        }
+        let c3 = AtomicRc::<P>::from(&tagged);
+        let l3 = c3.load(SeqCst, &g);
+        if !l3.ptr_eq(tagged.snapshot(&g)) || l3.tag() != t & mask {
+            fail11b("atomic-rc-from-ref", "AtomicRc::from(&Rc) does not hold the same pointer and tag".into());
+        }
+        // a cell written now carries the current epoch's bits: formatting must not show them
+        cell.store(rc.clone().with_tag(t), SeqCst, &g);
+        if format!("{:p}", cell) != p0 || format!("{:?}", cell) != p0 {
+            fail11b("atomic-rc-format", format!("{{:p}}/{{:?}} of an AtomicRc print {} / {}, the object is at {}", format!("{:p}", cell), format!("{:?}", cell), p0));
+        }
+        let w = rc1.downgrade().with_tag(t);
+        let mut wc = AtomicWeak::<P>::from(&w);
+        if format!("{:p}", wc) != p0 || format!("{:?}", wc) != p0 {
+            fail11b("atomic-weak-format", format!("{{:p}}/{{:?}} of an AtomicWeak print {} / {}, the object is at {}", format!("{:p}", wc), format!("{:?}", wc), p0));
+        }
+        if !wc.get_mut().ptr_eq(&w) || wc.get_mut().tag() != t & mask {
+            fail11b("atomic-weak-get_mut", "get_mut does not show the stored Weak".into());
+        }
+        let wl = wc.load(SeqCst, &g);
+        let wl2 = wl.clone().with_tag(t2);
+        if wl2.tag() != t2 & mask || wl2.is_null() || wl.tag() != t & mask {
+            fail11b("weaksnapshot-with_tag", format!("WeakSnapshot::with_tag({:#x}).tag() = {:#x}", t2, wl2.tag()));
+        }
+        if format!("{:p}", wl2) != p0 || format!("{:?}", wl2) != p0 {
+            fail11b("weaksnapshot-format", format!("{{:p}}/{{:?}} of a WeakSnapshot print {} / {}, the object is at {}", format!("{:p}", wl2), format!("{:?}", wl2), p0));
+        }
+        match wl2.upgrade() {
+            Some(sn) if sn.tag() == t2 & mask && sn.as_ref().map(|p| p as *const P as usize) == Some(base) => {}
+            _ => fail11b("weaksnapshot-upgrade-tag", "upgrade of a re-tagged WeakSnapshot lost tag or address".into()),
+        }
+        if !circ::WeakSnapshot::<P>::default().is_null() || !Snapshot::<P>::default().is_null() || !Rc::<P>::default().is_null() || !Weak::<P>::null().is_null() {
+            fail11b("pointer-default", "a default pointer is not null".into());
+        }
+        let mut nrc = Rc::<P>::null().with_tag(t);
+        if unsafe { nrc.as_mut() }.is_some() || unsafe { Snapshot::<P>::null().with_tag(t).as_mut() }.is_some() {
+            fail11b("null-as_mut", "as_mut of a tagged null is Some".into());
+        }
+        if format!("{:?}", nrc) != "Null" || format!("{:?}", Snapshot::<P>::null().with_tag(t2)) != "Null" {
+            fail11b("null-debug", "Debug of a tagged null does not print Null".into());
+        }
+        let sc = l3.clone();
+        if !sc.ptr_eq(l3) {
+            fail11b("snapshot-clone", "Snapshot::clone differs".into());
+        }
+        drop((c2, c3, wc, w));
+    }
     drop((rc, rc1, w1, tagged));
     drop(cell);
     drop(wcell);
